@@ -67,10 +67,17 @@ pub fn encode(name: &str, is_table: bool) -> String {
 /// Determines if a name will work as CFB stream name once encoded.
 pub fn is_valid(name: &str, is_table: bool) -> bool {
     if name.is_empty() || (!is_table && name.starts_with(TABLE_PREFIX)) {
-        false
-    } else {
-        encode(name, is_table).encode_utf16().count() <= 31
+        return false;
     }
+    // The encoding packs characters into the range 0x3800..0x4840 and leaves
+    // all other characters alone, so a name that already contains a character
+    // from that range could not be told apart from a packed name.
+    for chr in name.chars() {
+        if (0x3800..0x4840).contains(&(chr as u32)) {
+            return false;
+        }
+    }
+    encode(name, is_table).encode_utf16().count() <= 31
 }
 
 // ========================================================================= //
